@@ -408,7 +408,7 @@ struct tcp_run
 		error_code ec;
 		// the connector is always bound explicitly before connecting (port 0 = ephemeral), so that its
 		// endpoint is known when the SYN appears on the wire (the implicit bind is covered by C11)
-		if (!so.is_open()) so.open(tcp::v4(), ec);
+		if (!so.is_open()) so.open(w.real_addr(bind_addr).is_v6() ? tcp::v6() : tcp::v4(), ec);
 		so.bind(tcp::endpoint(w.real_addr(bind_addr), std::uint16_t(bind_port < 0 ? 0 : bind_port)), ec);
 		std::int64_t h = next_h++;
 		std::string name = ci.c; int cid = ci.id;
@@ -621,7 +621,7 @@ struct tcp_run
 				error_code ec;
 				if (!accs[name]) return;
 				tcp::acceptor& l = *accs[name];
-				l.open(tcp::v4(), ec);
+				l.open(w.real_addr(addr).is_v6() ? tcp::v6() : tcp::v4(), ec);
 				l.bind(tcp::endpoint(w.real_addr(addr), std::uint16_t(port)), ec);
 				if (!ec) l.listen(10, ec);
 				std::int64_t t = rec.sync();
@@ -634,7 +634,7 @@ struct tcp_run
 				if (!accs[name]) return;
 				error_code ec;
 				tcp::acceptor& l = *accs[name];
-				l.open(tcp::v4(), ec);
+				l.open(w.real_addr(addr).is_v6() ? tcp::v6() : tcp::v4(), ec);
 				l.bind(tcp::endpoint(w.real_addr(addr), std::uint16_t(port)), ec);
 				std::int64_t t = rec.sync();
 				json::object e; e["e"] = "BindAcc"; e["l"] = name; e["ec"] = ec_name(ec); e["t"] = t;
